@@ -57,6 +57,14 @@ static inline uint8_t *arena_data_view (const ArenaSlot *s, int row) {
 }
 static inline size_t arena_data_len (const ArenaSlot *s) { return s->striped ? ARENA_PAGE : ARENA_DATA_BYTES; }
 
+#ifndef MAP_FIXED_NOREPLACE
+#define MAP_FIXED_NOREPLACE 0x100000
+#endif
+/* When >= 0, the next slot's view is placed so that this byte offset of its data area is a multiple of 4 GiB (arrays in it
+ * then have rows on both sides of the boundary: row pointers whose upper 32 bits change).  Falls back to any address. */
+static long arena_straddle_next = -1;
+static int arena_straddled;
+
 static void arena_slot_init (ArenaSlot *s, int striped, int readonly)
 {
   size_t data = striped ? (size_t) ARENA_ROWS * ARENA_PAGE : ARENA_DATA_BYTES;
@@ -68,7 +76,17 @@ static void arena_slot_init (ArenaSlot *s, int striped, int readonly)
     uint8_t *base;
     int prot = (v == 1 && readonly) ? PROT_READ : (PROT_READ | PROT_WRITE);
     if (v == 1 && !readonly) { s->view_base = s->rw_base; break; }
-    base = mmap (NULL, map, PROT_NONE, MAP_PRIVATE | MAP_ANONYMOUS | MAP_NORESERVE, -1, 0);
+    base = MAP_FAILED;
+    if (arena_straddle_next >= 0 && !striped && (v == 1 || !readonly)) {
+      unsigned long k;
+      for (k = 3; k < 4000 && base == MAP_FAILED; k += 7) {
+        uint8_t *want = (uint8_t *) ((k << 32) - ARENA_PAGE - (unsigned long) arena_straddle_next);
+        base = mmap (want, map, PROT_NONE, MAP_PRIVATE | MAP_ANONYMOUS | MAP_NORESERVE | MAP_FIXED_NOREPLACE, -1, 0);
+        if (base != MAP_FAILED && base != want) { munmap (base, map); base = MAP_FAILED; }
+      }
+      if (base != MAP_FAILED) arena_straddled++;
+    }
+    if (base == MAP_FAILED) base = mmap (NULL, map, PROT_NONE, MAP_PRIVATE | MAP_ANONYMOUS | MAP_NORESERVE, -1, 0);
     if (base == MAP_FAILED) { perror ("arena mmap"); exit (2); }
     if (striped) {
       for (r = 0; r < ARENA_ROWS; r++) {
